@@ -269,7 +269,7 @@ func preamble[S, D signal.SignalTypes](conv func(*signal.Buffer[S], *signal.Buff
 
 func convertSlice[S, D signal.SignalTypes](conv func(*signal.Buffer[S], *signal.Buffer[D]) int, in []S) []D {
 	n := len(in)
-	if n <= 1<<17 {
+	if n <= 4096 { // (the exhaustive sweeps convert 2^16 values per call, thousands of times: not there)
 		preamble(conv, in)
 	}
 	// Interleave over 1..3 channels. The buffers are filled sample by sample, so when n is not a multiple of the
